@@ -38,6 +38,7 @@ Record Libs := {
   H_pvec_get : forall v i, pv_get v i = py_nth (pv_list v) i;
   H_pvec_init : forall v, pv_list (pv_init v) = removelast (pv_list v);
   H_pvec_mset : forall v i x, option_map pv_list (pv_mset v i x) = py_set (pv_list v) i x;
+  H_pvec_hash : forall a b, pv_list a = pv_list b -> pv_hash a = pv_hash b;
   (* ---------------- its evolver ---------------- *)
   pev : Type;
   ev_list : pev -> list elem;
@@ -72,6 +73,7 @@ Record Libs := {
   H_plist_rest : forall l, pl_list (pl_rest l) = tl (pl_list l);
   H_plist_is_empty : forall l, pl_is_empty l = match pl_list l with [] => true | _ => false end;
   H_plist_len : forall l, pl_len l = zlen (pl_list l);
+  H_plist_hash : forall a b, pl_list a = pl_list b -> pl_hash a = pl_hash b;
   (* ---------------- pyrsistent.pdeque ---------------- *)
   pdeque : Type;
   dq_list : pdeque -> list elem;
@@ -86,6 +88,7 @@ Record Libs := {
   H_pdeque_left : forall d, dq_left d = hd_error (dq_list d);
   H_pdeque_popleft : forall d, dq_list (dq_popleft d) = tl (dq_list d);
   H_pdeque_len : forall d, dq_len d = zlen (dq_list d);
+  H_pdeque_hash : forall a b, dq_list a = dq_list b -> dq_hash a = dq_hash b;
   (* ---------------- immutables.Map ---------------- *)
   pmap : Type;
   pmut : Type;                                      (* immutables.MapMutation, below *)
@@ -95,7 +98,8 @@ Record Libs := {
   m_get : pmap -> elem -> option elem;              (* lookup (get with a sentinel / in) *)
   m_len : pmap -> Z;
   m_mutate : pmap -> pmut;                          (* m.mutate() *)
-  m_hash : pmap -> Z;
+  m_hash : pmap -> Z;                               (* hash(m): order independent *)
+  keys_hash : list elem -> Z;                       (* collections.abc.Set._hash over the members *)
   m_eq : pmap -> pmap -> bool;                      (* m == other (same sizes) *)
   (* ---------------- immutables.MapMutation ---------------- *)
   mm_items : pmut -> al;
@@ -113,6 +117,8 @@ Record Libs := {
   H_map_eq : forall a b, m_eq a b = forallb (fun kv => match al_get (fst kv) (m_items b) with
                                                        | Some v => keq (snd kv) v | None => false end)
                                             (m_items a);
+  H_map_hash : forall a b, Permutation (m_items a) (m_items b) -> m_hash a = m_hash b;
+  H_keys_hash : forall l1 l2, Permutation l1 l2 -> keys_hash l1 = keys_hash l2;
   H_mut_nodup : forall mm, nodupk (mm_items mm) = true;
   H_map_mutate : forall m, Permutation (mm_items (m_mutate m)) (m_items m) /\ mm_fin (m_mutate m) = false;
   H_mut_set_finished : forall mm k v, mm_fin mm = true -> mm_set mm k v = None;
@@ -175,7 +181,7 @@ Proof.
     pmap := lmap; m_items := lm_items; m_empty := lm_nil; m_of := lm_of;
     m_get := fun m k => al_get k (lm_items m); m_len := fun m => zlen (lm_items m);
     m_mutate := fun m => {| lu_items := lm_items m; lu_fin := false; lu_ok := lm_ok m |};
-    m_hash := fun _ => 0%Z; m_eq := fun a b => al_eq_items (lm_items a) (lm_items b);
+    m_hash := fun _ => 0%Z; keys_hash := fun _ => 0%Z; m_eq := fun a b => al_eq_items (lm_items a) (lm_items b);
     pmut := lmut; mm_items := lu_items; mm_fin := lu_fin; mm_set := lu_set; mm_del := lu_del;
     mm_get := fun mm k => al_get k (lu_items mm); mm_len := fun mm => zlen (lu_items mm);
     mm_finish := fun mm => ({| lm_items := lu_items mm; lm_ok := lu_ok mm |},
